@@ -837,9 +837,74 @@ def rule_u11(F):
     return r
 
 
+def _occurs_fn(F):
+    ps = [p for p in F.paths() if p.endswith("::unify_inner")]
+    if not ps:
+        return None
+    ub = F.body(ps[0])
+    cands = {}
+    ms = [m for m in hir.nodes(ub.hir["value"], "match") if len(m["arms"]) > 8]
+    for arm in (ms[0]["arms"] if ms else []):
+        if hir.pat_desc(arm["pat"]) in ("(Type::Var(_),_)", "(_,Type::Var(_))"):
+            for c in hir.nodes(arm["body"], "mcall"):
+                if c["m"] not in ("set", "clone") and c.get("def"):
+                    cands[c["def"]] = cands.get(c["def"], 0) + 1
+    occ = [d for d, n in cands.items() if n >= 2 and F.has(d)]
+    return F.body(occ[0]) if occ else None
+
+
+def rule_u12(F):
+    """The occurs check looks at what a type IS, not at how it is spelled: a type variable that is already bound (its union-find
+    class has a compound representative such as `List[?1]`) must be looked through, otherwise `let x = []; let y = [x]; x.push(y)`
+    binds ?x to a type that contains ?x behind ?y and the next traversal of the type never terminates.  So the Type whose
+    constructor the occurs check dispatches on is the RESOLVED type (result of a function that goes through the union-find), or the
+    variable case hands the looked-up binding to a recursive occurs call."""
+    from ..callgraph import CallGraph
+    r = RuleResult("C06.U12", "the occurs check dispatches on the resolved type (bound type variables are looked through)", floor=1)
+    ob = _occurs_fn(F)
+    if ob is None or not ob.mir:
+        r.missing("occurs-check function called from both Var arms of unify_inner")
+        return r
+    cg = CallGraph(F)
+    finders = {p_ for p_ in F.paths() if "unionfind::UnionFind" in p_ and hir.last(p_).startswith("find")}
+    resolvers = set(finders)
+    for p_ in F.paths():
+        if p_.startswith("typechecker::") and "{closure" not in p_ and p_ != ob.path:
+            seen, _ = cg.reachable([p_])
+            if seen & finders:
+                resolvers.add(p_)
+    defs = mir.Defs(ob)
+
+    def from_resolver(local):
+        return any((mir.callee(ob.blocks[bi]["term"]) in resolvers or mir.callee_def(ob.blocks[bi]["term"]) in resolvers) for bi in mir.back_calls(ob, defs, local))
+
+    discrs = [(bi, st) for bi, blk in enumerate(ob.blocks) for st in blk["stmts"]
+              if st["k"] == "assign" and st["rv"]["k"] == "discr" and str(st["rv"].get("ty") or "").endswith("types::Type")]
+    if not discrs:
+        r.missing("dispatch on the constructor of a Type in " + ob.path)
+        return r
+    # the recursive calls of the variable case: occurs(var, <looked-up binding>)
+    rec_ok = False
+    for bi, t in mir.calls(ob):
+        if (mir.callee(t) == ob.path or mir.callee_def(t) == ob.path) and len(t.get("args") or []) >= 3:
+            a = t["args"][2]
+            if mir.is_place_op(a) and from_resolver(a[1][0]):
+                rec_ok = True
+    for bi, st in discrs[:1]:
+        loc = st["rv"]["p"][0]
+        ok = from_resolver(loc) or rec_ok
+        r.inst("dispatch at line %s" % st.get("line"), {"fn": ob.path, "scrutinee_resolved": from_resolver(loc), "variable_case_recurses_on_binding": rec_ok})
+        if not ok:
+            r.bad(ob.path, "dispatch on the unresolved type", relfile(ob.file), st.get("line") or ob.line,
+                  "%s dispatches on the constructor of its argument as written, without going through the union-find (resolve_type / find), and does not descend into the binding of a "
+                  "variable either: a variable that is already bound to a compound type is taken for 'some other variable', the cyclic binding is accepted and the next traversal "
+                  "overflows the stack (`let x = []; let y = [x]; x.push(y);`)" % hir.last(ob.path))
+    return r
+
+
 def rules(ctx):
     F = ctx["F"]
-    return [rule_u1(F), rule_u2(F), rule_u3(F), rule_u3b(F), rule_u4(F), rule_u5(F), rule_u6(F), rule_u7(F), rule_u8(F), rule_u9(F), rule_u10(F), rule_u11(F)]
+    return [rule_u1(F), rule_u2(F), rule_u3(F), rule_u3b(F), rule_u4(F), rule_u5(F), rule_u6(F), rule_u7(F), rule_u8(F), rule_u9(F), rule_u10(F), rule_u11(F), rule_u12(F)]
 
 
 def canary(C):
